@@ -89,7 +89,7 @@ impl Monitor for C11 {
             return out;
         }
         let params = gen_params(&cfg, &mut rng, -1.0, 1.0).unwrap();
-        let x = random_input(&mut rng, cfg.input);
+        let x = varied_input(&mut rng, cfg.input);
         let tag = format!("{}:{}{}", acc.name(), if inskips { "in" } else { "" }, if outskips { "out" } else { "" });
         // every fourth case: the block's layers carry dropout and the network object has been
         // through a learn() call (learning rate 0: the weights stay as installed) before it is
